@@ -991,7 +991,8 @@ func (interp *Interpreter) cfg(root *node, sc *scope, importPath, pkgName string
 				// The type of an operation on a typed operand is the type of this operand, whatever
 				// the type expected by the context, which is checked when the result is used.
 				switch {
-				case n.typ == nil:
+				case n.typ == nil && !(c0.rval.IsValid() && c1.rval.IsValid()):
+					// Not a constant operation: the type is determined below.
 				case !c0.typ.untyped:
 					n.typ = c0.typ
 				case !c1.typ.untyped:
